@@ -281,6 +281,9 @@ pub struct App {
     /// inner operations the next publish / protocol handler invocations perform (front = next)
     pub pub_inner: RefCell<VecDeque<Option<InnerOp>>>,
     pub proto_inner: RefCell<VecDeque<Option<InnerOp>>>,
+    /// MQTT 5: diagnostics every acknowledgement produced by the handlers carries
+    /// (reason string, user properties)
+    pub ack_decor: RefCell<Option<(Option<String>, Vec<(String, String)>)>>,
 }
 
 impl App {
@@ -326,6 +329,7 @@ impl App {
             ready_calls: [Cell::new(0), Cell::new(0), Cell::new(0)],
             pub_inner: RefCell::new(VecDeque::new()),
             proto_inner: RefCell::new(VecDeque::new()),
+            ack_decor: RefCell::new(None),
         })
     }
 
